@@ -18,11 +18,16 @@ def Grammar(description, include_source=False):
 
     # Generate and compile the souce code.
     builder = translator.generate_source_code(docstring, parsed)
-    module = builder.compile(
-        module_name=name,
-        docstring=docstring,
-        source_var='_source_code' if include_source else None,
-    )
+
+    # Compile the module the way Python compiles the same source code when it is
+    # saved and imported: inline Python keeps its assert statements and
+    # docstrings. (CodeBuilder.compile would strip them.)
+    source_code = builder.source_code()
+    module = types.ModuleType(name, doc=docstring)
+    exec(compile(source_code, f'<{name}>', 'exec'), module.__dict__)
+
+    if include_source:
+        module._source_code = source_code
 
     if parsed.name:
         _install_module(name, module)
